@@ -50,7 +50,8 @@ pub fn random_track(rng: &mut Rng, vz: f64) -> Vec<SpacePoint> {
     let psi = rng.range(-PI, PI);
     let rad = rng.range(0.3, 3.3);
     let q = if rng.bool() { 1.0 } else { -1.0 };
-    let slope = rng.range(-0.8, 0.8);
+    // one track in three is nearly flat (tiny pitch: large Kepler eccentricity in the closest-point solver)
+    let slope = if rng.below(3) == 0 { (if rng.bool() { 1.0 } else { -1.0 }) * 10f64.powf(rng.range(-6.0, -1.0)) } else { rng.range(-0.8, 0.8) };
     let step = rng.range(0.002, 0.006);
     let smear = *rng.pick(&[0.0, 1e-4, 5e-4, 2e-3]);
     track_points(rng, v, psi, rad, q, slope, step, smear, 0.11, 0.19)
